@@ -298,6 +298,10 @@ class Future(BaseFuture):
             other_operand = self.builder._mem_mgr.get_inactive_register(activate=True)
             other_tmp_register = other_operand
             load_commands += other.get_load_commands(other_tmp_register)
+        elif isinstance(other, RegFuture):
+            # (a RegFuture is an int too -- with value 0 -- so it must be caught first)
+            assert other.reg is not None, "Trying to use RegFuture that has no value yet"
+            other_operand = other.reg
         elif isinstance(other, operand.Register) or isinstance(other, int):
             other_operand = other
         else:
@@ -472,6 +476,10 @@ class RegFuture(BaseFuture):
             other_operand = self.builder._mem_mgr.get_inactive_register(activate=True)
             other_tmp_register = other_operand
             load_commands += other.get_load_commands(other_tmp_register)
+        elif isinstance(other, RegFuture):
+            # (a RegFuture is an int too -- with value 0 -- so it must be caught first)
+            assert other.reg is not None, "Trying to use RegFuture that has no value yet"
+            other_operand = other.reg
         elif isinstance(other, operand.Register) or isinstance(other, int):
             other_operand = other
         else:
